@@ -336,6 +336,264 @@ fn c11_families(thorough: bool) -> Vec<Family> {
     v
 }
 
+// ------------------------------------------------------------------------------------------ statement sequences (C10 + C11)
+
+/// Statements of the sequence family. A case is a sequence of these executed one after the other on ONE store
+/// (never reset), so that a statement sees the values and the aliasing that earlier statements left behind.
+/// Simplest first. The same statement may occur several times in a sequence: on the cached path it is then served
+/// from the session's compilation cache.
+const SEQ_STMTS: &[&str] = &[
+    // literals with constant elements, stored in a variable (container copy: the element cells stay shared)
+    "x ?= [0, [1], {'k':2}]",
+    "y ?= {'n':1, 'a':[1,2]}",
+    "x = [0, [1], {'k':2}]",
+    // reads
+    "x",
+    "y",
+    "x[0]",
+    "x[1]",
+    "x[1][0]",
+    "x[2].k",
+    "y.n",
+    "y.a",
+    "y.a[1]",
+    // in-place modification of an element / member
+    "x[0] = 5",
+    "x[1][0] = 7",
+    "x[2].k = 9",
+    "y.n = 3",
+    "y.a[1] = 8",
+    "x[1] = [4]",
+    // pure literals (value must not depend on the evaluation history)
+    "[0, [1], {'k':2}]",
+    "{'n':1, 'a':[1,2]}",
+    "[0, [1], {'k':2}][1][0]",
+    // copies
+    "z ?= x",
+    "z[0] = 1",
+    "z",
+    "z = y",
+    // values that contain themselves / each other (only creatable by aliasing assignments)
+    "x[0] = x",
+    "x[1] = x",
+    "y.n = y",
+    "y.a = x",
+    "x[1] = y",
+    "arr[0] = arr",
+    "arr[0] = al",
+    "m.b = m",
+    // operations on possibly self-containing / aliased operands
+    "toString(x)",
+    "x.toString()",
+    "toString(y)",
+    "toString(arr)",
+    "toString(m)",
+    "length(x)",
+    "x == x[0]",
+    "x == x[1]",
+    "x[1] == x",
+    "y == y.n",
+    "y != y.a",
+    "arr == arr[0]",
+    "m == m.b",
+    "x + x",
+    "x + x[0]",
+    "y + y",
+    "y + y.n",
+    "y[x]",
+    "y[[y]]",
+    "y[y]",
+    "m[[m]]",
+    "m[m.b]",
+    "x[x]",
+    "x[x[0]]",
+    "{'q':x}",
+    "[x, y]",
+    "x = x[0]",
+    "x = x[1]",
+    "y = y.n",
+    "y = y.a",
+];
+
+fn seq_count(len: usize) -> u64 {
+    pow(SEQ_STMTS.len(), len)
+}
+
+fn seq_source(len: usize, idx: u64) -> String {
+    nth_seq(SEQ_STMTS, len, idx, "\n")
+}
+
+fn seq_lens(thorough: bool) -> Vec<usize> {
+    if thorough {
+        vec![1, 2, 3, 4]
+    } else {
+        vec![1, 2, 3]
+    }
+}
+
+/// one data model session with a persistent store
+struct Sess {
+    gd: GlobalDataArc,
+    dm: RFsmExpressionDatamodel,
+}
+
+impl Sess {
+    fn new() -> Sess {
+        let (gd, _) = make_store();
+        let dm = RFsmExpressionDatamodel::new(gd.clone());
+        Sess { gd, dm }
+    }
+    fn step(&mut self, src: &str, source_id: usize) -> Outcome {
+        let dm = &mut self.dm;
+        let r = catch_unwind(AssertUnwindSafe(|| {
+            dm.execute(&Data::Source(SourceCode::new(src, source_id)))
+                .map(|v| v.arc.try_lock().ok().and_then(|g| data_to_rv(&g)).map(|x| x.show()))
+        }));
+        match r {
+            Ok(Ok(Some(s))) => Outcome::Ok(s),
+            Ok(Ok(None)) => Outcome::Ok("<none-or-unrenderable>".into()),
+            Ok(Err(_)) => Outcome::Err,
+            Err(_) => {
+                let p = take_panics();
+                let d = p
+                    .last()
+                    .map(|x| format!("{} at {}", x.1.chars().take(60).collect::<String>(), x.2))
+                    .unwrap_or_default();
+                Outcome::Panic(d)
+            }
+        }
+    }
+    /// every lock reachable from the store is free and unpoisoned (cycles are followed once)
+    fn health(&self) -> Vec<String> {
+        let mut out = vec![];
+        let roots: Vec<(String, DataArc)> = match self.gd.try_lock() {
+            Ok(g) => g.data.map.iter().map(|(k, v)| (k.clone(), v.clone())).collect(),
+            Err(std::sync::TryLockError::Poisoned(_)) => {
+                out.push("global data poisoned".to_string());
+                return out;
+            }
+            Err(std::sync::TryLockError::WouldBlock) => {
+                out.push("global data left locked".to_string());
+                return out;
+            }
+        };
+        let mut seen: Vec<*const std::sync::Mutex<Data>> = vec![];
+        let mut todo: Vec<(String, DataArc)> = roots;
+        while let Some((path, a)) = todo.pop() {
+            let p = Arc::as_ptr(&a.arc);
+            if seen.contains(&p) {
+                continue;
+            }
+            seen.push(p);
+            let children: Vec<(String, DataArc)> = match a.arc.try_lock() {
+                Ok(g) => match &*g {
+                    Data::Array(v) => v.iter().enumerate().map(|(i, c)| (format!("{}[{}]", path, i), c.clone())).collect(),
+                    Data::Map(m) => m.iter().map(|(k, c)| (format!("{}.{}", path, k), c.clone())).collect(),
+                    _ => vec![],
+                },
+                Err(std::sync::TryLockError::Poisoned(_)) => {
+                    out.push(format!("value '{}' poisoned", path));
+                    vec![]
+                }
+                Err(std::sync::TryLockError::WouldBlock) => {
+                    out.push(format!("value '{}' left locked", path));
+                    vec![]
+                }
+            };
+            todo.extend(children);
+        }
+        out.sort();
+        out
+    }
+}
+
+fn is_pure_literal(stmt: &str) -> bool {
+    stmt.starts_with('[') || stmt.starts_with('{')
+}
+
+/// The per-sequence check: the same statements on two stores, one through the compilation cache (source id =
+/// statement number, so a repeated statement is a cache hit), one compiled afresh every time.
+fn check_seq(prop: &str, src: &str) -> (Vec<(String, String, String)>, u64, Vec<String>) {
+    let stmts: Vec<&str> = src.split('\n').collect();
+    let mut viol = vec![];
+    let mut classes = vec![];
+    let mut cached = Sess::new();
+    let mut fresh = Sess::new();
+    let mut evals = 0u64;
+    let mut literal_value: HashMap<&str, Outcome> = HashMap::new();
+    let mut trace = vec![];
+    for (k, st) in stmts.iter().enumerate() {
+        let sid = SEQ_STMTS.iter().position(|x| x == st).map(|p| p + 1).unwrap_or(1000 + k);
+        let oc = cached.step(st, sid);
+        let of = fresh.step(st, 0);
+        evals += 2;
+        trace.push(format!("{:?} -> cached {:?} / fresh {:?}", st, oc, of));
+        classes.push(oc.class());
+        if prop == "C11" {
+            for o in [&oc, &of] {
+                if let Outcome::Panic(p) = o {
+                    let site = p.rsplit(" at ").next().unwrap_or("").to_string();
+                    viol.push(("panic".to_string(), format!("panic:seq:{}", site), format!("statement {} of {:?} panics: {}", k + 1, stmts, p)));
+                }
+            }
+            let mut h = cached.health();
+            h.extend(fresh.health());
+            if !h.is_empty() {
+                viol.push(("store-health".to_string(), "store-health:seq".into(), format!("after statement {} of {:?}: {}", k + 1, stmts, h.join(", "))));
+                break;
+            }
+        } else {
+            // the text of a map depends on the iteration order of that HashMap instance (two stores hold two
+            // instances): for toString only the kind of outcome is compared
+            let same = if st.contains("toString") { oc.class() == of.class() } else { oc == of };
+            if !same {
+                viol.push((
+                    "cache-differs".to_string(),
+                    "cache-differs:seq".to_string(),
+                    format!("statement {} of {:?}: through the compilation cache {:?}, compiled afresh {:?}; trace: {}", k + 1, stmts, oc, of, trace.join(" ; ")),
+                ));
+                break;
+            }
+            if is_pure_literal(st) {
+                if let Some(prev) = literal_value.get(st) {
+                    if *prev != oc {
+                        viol.push((
+                            "value".to_string(),
+                            "literal-value-depends-on-history".to_string(),
+                            format!("the literal {:?} evaluated to {:?} first and to {:?} later in {:?}", st, prev, oc, stmts),
+                        ));
+                        break;
+                    }
+                } else {
+                    literal_value.insert(st, oc.clone());
+                }
+            }
+        }
+    }
+    if prop == "C10" {
+        // the stores must have the same contents at the end (top-level rendering)
+        let render_store = |s: &Sess| -> Vec<(String, String)> {
+            let mut v: Vec<(String, String)> = match s.gd.try_lock() {
+                Ok(g) => g
+                    .data
+                    .map
+                    .iter()
+                    .map(|(k, a)| (k.clone(), a.arc.try_lock().ok().and_then(|d| data_to_rv(&d)).map(|x| x.show()).unwrap_or("<unrenderable>".into())))
+                    .collect(),
+                Err(_) => vec![("<store locked>".into(), String::new())],
+            };
+            v.sort();
+            v
+        };
+        let (a, b) = (render_store(&cached), render_store(&fresh));
+        if a != b && viol.is_empty() {
+            let diff: Vec<String> = a.iter().zip(b.iter()).filter(|(x, y)| x != y).map(|(x, y)| format!("{}: cached {} / fresh {}", x.0, x.1, y.1)).collect();
+            viol.push(("cache-differs".to_string(), "cache-differs:seq-store".to_string(), format!("after {:?} the data stores differ: {}", stmts, diff.join("; "))));
+        }
+    }
+    (viol, evals, classes)
+}
+
 // ------------------------------------------------------------------------------------------ families (C10)
 
 fn operands(rich: bool) -> Vec<Ast> {
@@ -500,6 +758,9 @@ fn check_case(prop: &str, c: &Case) -> (Vec<(String, String, String)>, u64, Vec<
     let mut viol = vec![];
     let mut classes = vec![];
     let mut evals = 0;
+    if c.family == "seq" {
+        return check_seq(prop, &c.src);
+    }
     if prop == "C11" {
         for (sid, times) in [(0usize, 1usize), (c.index as usize + 1, 2)] {
             let (outs, health) = evaluate(&c.src, sid, times, false);
@@ -767,6 +1028,10 @@ fn worker(ctx: &Ctx) {
 
 /// signature of a hang: the shape of the input, not its text
 fn hang_sig(src: &str) -> String {
+    if src.contains('\n') || SEQ_STMTS.contains(&src) {
+        // a statement sequence: name the last statement's kind only (the full sequence is in the replay file)
+        return "no-termination:seq".into();
+    }
     let t = src.trim_end();
     if t.ends_with('!') || t.ends_with('<') || t.ends_with('>') || t.ends_with('=') {
         "no-termination:source-ends-in-operator-prefix-char".into()
@@ -779,6 +1044,7 @@ struct CaseSource {
     prop: String,
     fams: Vec<Family>,
     c10: Vec<Ast>,
+    seq_lens: Vec<usize>,
 }
 
 impl CaseSource {
@@ -794,26 +1060,43 @@ impl CaseSource {
             prop: ctx.prop.clone(),
             fams,
             c10,
+            seq_lens: seq_lens(thorough),
         }
+    }
+    fn seq_total(&self) -> u64 {
+        self.seq_lens.iter().map(|l| seq_count(*l)).sum()
     }
     fn total(&self) -> u64 {
-        if self.prop == "C10" {
-            self.c10.len() as u64
-        } else {
-            self.fams.iter().map(|f| f.count).sum()
-        }
+        self.seq_total()
+            + if self.prop == "C10" {
+                self.c10.len() as u64
+            } else {
+                self.fams.iter().map(|f| f.count).sum()
+            }
     }
     fn get(&self, mut i: u64) -> Option<Case> {
+        // the statement-sequence family comes first (short inputs; the long-input ladders must stay last)
+        let idx = i;
+        for l in &self.seq_lens {
+            if i < seq_count(*l) {
+                return Some(Case {
+                    index: idx,
+                    family: "seq",
+                    src: seq_source(*l, i),
+                    ast: None,
+                });
+            }
+            i -= seq_count(*l);
+        }
         if self.prop == "C10" {
             let a = self.c10.get(i as usize)?;
             return Some(Case {
-                index: i,
+                index: idx,
                 family: "ast",
                 src: render(a, Style::Plain),
                 ast: Some(a.clone()),
             });
         }
-        let idx = i;
         for f in &self.fams {
             if i < f.count {
                 return Some(Case {
@@ -849,8 +1132,12 @@ fn replay(ctx: &Ctx, path: &str) -> i32 {
         let (tx, rx) = mpsc::channel();
         let s2 = src.clone();
         std::thread::spawn(move || {
-            let r = evaluate(&s2, 0, 1, false);
-            let _ = tx.send(format!("{:?}", r));
+            let r = if s2.contains('\n') || SEQ_STMTS.contains(&s2.as_str()) {
+                format!("{:?}", check_seq("C11", &s2).0)
+            } else {
+                format!("{:?}", evaluate(&s2, 0, 1, false))
+            };
+            let _ = tx.send(r);
         });
         match rx.recv_timeout(Duration::from_secs(5)) {
             Ok(r) => {
@@ -866,10 +1153,10 @@ fn replay(ctx: &Ctx, path: &str) -> i32 {
     }
     let thorough = v["tier"].as_str() == Some("thorough") || ctx.thorough();
     let c = match case_by_index(ctx, thorough, idx) {
-        Some(c) if c.src == src || ctx.prop == "C10" => c,
+        Some(c) if c.src == src || (ctx.prop == "C10" && c.family != "seq" && !src.contains('\n')) => c,
         _ => Case {
             index: idx,
-            family: "replay",
+            family: if src.contains('\n') || SEQ_STMTS.contains(&src.as_str()) { "seq" } else { "replay" },
             src: src.clone(),
             ast: None,
         },
